@@ -75,6 +75,13 @@ Definition no_byte (c : N) (s : bytes) : bool := negb (existsb (N.eqb c) s).
 Definition plain_path (s : bytes) : bool :=
   forallb (fun c => (32 <=? c) && (c <? 127) && negb (c =? 34) && negb (c =? 92)) s.
 
+Definition base_ok (b : ex) : bool :=
+  match b with
+  | XIdent _ a => negb (has_prefix itea a)
+  | XSel _ (XIdent _ a) _ => negb (has_prefix itea a)
+  | _ => false
+  end.
+
 Section Ok.
 Variable op_string : list (N * bytes).
 Variable bin_prec : list (N * N).
@@ -151,6 +158,13 @@ Definition xbin_ok (op : N) : bool :=
 (* the operator is spelled with the token that a type may start with (tokenMultiplication) *)
 Definition spelled_mul (op : N) : bool :=
   match spell op_string op with Some s => bytes_eqb s sym_mul | None => false end.
+
+(* the type of an embedded field as parseField reads it: T, p.T, *T, *p.T *)
+Definition embedded_ok (t : ex) : bool :=
+  match t with
+  | XUn _ op b => (op =? op_pointer) && spelled_mul op && base_ok b
+  | _ => base_ok t
+  end.
 
 Definition op_first (op : N) : option tk :=
   match spell op_string op with
@@ -260,7 +274,7 @@ Fixpoint ok (ty el : bool) (e : ex) (nxt : option tk) {struct e} : bool :=
     plist v params &&
     (if macro then
        match results with
-       | [(None, Some (XIdent _ a))] => memb macro_results a
+       | [(None, Some (XIdent _ a))] => memb macro_results a && negb (has_prefix itea a)
        | _ => false
        end
      else
@@ -279,17 +293,7 @@ Fixpoint ok (ty el : bool) (e : ex) (nxt : option tk) {struct e} : bool :=
                       else KLit lit_string (backquote tag) in
          forallb (fun a => negb (has_prefix itea a)) names &&
          (match names with
-          | [] =>
-            let base (b : ex) : bool :=
-              match b with
-              | XIdent _ a => negb (has_prefix itea a)
-              | XSel _ (XIdent _ a) _ => negb (has_prefix itea a)
-              | _ => false
-              end in
-            match t with
-            | XUn _ op b => (op =? op_pointer) && spelled_mul op && base b
-            | _ => base t
-            end
+          | [] => embedded_ok t
           | _ :: _ => ok true false t (Some after)
           end) && go r
        end) fields
